@@ -41,6 +41,9 @@ def setup(ctx):
         getattr(laue, f)
         observe.watch("tools.%s" % f, getattr(tools, f))
         observe.watch("laue.%s" % f, getattr(laue, f))
+        if f not in ("sysabs", "sysabs_unique", "_arctan2", "sintl", "tth", "tth2", "cell_volume"):
+            ctx.hold(tools, f)
+            ctx.hold(laue, f)
     ctx.mon.extra["functions_in_both_modules"] = len(ctx.common)
     ctx.mon.extra["functions_without_a_generator"] = [f for f in ctx.common if f not in EXPECTED]
 
@@ -128,7 +131,8 @@ def case_numeric(ctx, p):
     P("form_a_mat_inv", (c,))
     P("form_b_mat", (c,), factor=K)
     P("sintl", (c, h))
-    P("tth", (c, h, p["lam"]))
+    lam = p["lam"] if p["lam"] * oracle.stl(c, h) < 0.95 else 0.9 / (2 * oracle.stl(c, h))     # keep lambda.sintl < 1
+    P("tth", (c, h, lam))
     # a refinement loop: each module is handed the same container object again after it was updated in place
     held_t, held_l = list(c), list(c)
     P("sintl", (held_t, h), (held_l, h))
@@ -136,12 +140,13 @@ def case_numeric(ctx, p):
         held[0] *= 1.0371
         held[1] *= 0.9644
     P("sintl", (held_t, h), (held_l, h))
-    P("tth", (held_t, h, p["lam"]), (held_l, h, p["lam"]))
+    if lam * oracle.stl(held_t, h) < 0.99:
+        P("tth", (held_t, h, lam), (held_l, h, lam))
     P("form_b_mat", (held_t,), (held_l,), factor=K)
     B_l = oracle.upper_triangular_factor(oracle.recip_metric(c))
     B_t = K * B_l
     g_l = U @ (B_l @ np.array(h, float))
-    P("tth2", (K * g_l, p["lam"]), (g_l, p["lam"]))
+    P("tth2", (K * g_l, lam), (g_l, lam))
     P("a_to_cell", (oracle.upper_triangular_factor(oracle.metric(c)),))
     P("b_to_cell", (B_t,), (B_l,))
     Bs_l = np.linalg.inv(c13.T_of(eps)) @ B_l
